@@ -20,7 +20,7 @@ pub fn atom_text(code: u8) -> &'static str {
         7 => " // y--; keccak256(z); require(a && b, \"s\"); address(0) == q; w * 4 solstat:ignore noqa nosolstat\r\n",
         8 => " /* x++; selfdestruct(msg.sender); t.approve(u, 1); a / b * c; solstat-ignore slither-disable-next-line all */ ",
         9 => " /* x++; solstat-disable\n selfdestruct(msg.sender);\n for (;i < a.length;) {} solstat-enable @custom:solstat-skip */ ",
-        10 => " /* \u{e9}\u{fc}\u{20ac} x++; address(this).balance; v == true */ ",
+        10 => " /* \u{e9}\u{fc}\u{20ac} \u{feff}\u{feff} x++; address(this).balance; v == true \u{200b}\u{a0} */ ",
         _ => " ",
     }
 }
